@@ -123,7 +123,8 @@ type run struct {
 	resultSet map[string]bool
 	wg        sync.WaitGroup // client + controller helper goroutines
 	phase     int            // 1, 2 (restart)
-	base      int            // index offset of the current phase's clients (restart uses client 9)
+	parent    *run           // phase 2: the run that owns the Server value, the handler and the violations
+	child     *run           // phase 1: the second run, once it exists (for rescue)
 	viol      []string
 	torn      bool // teardown has begun: no new client conns
 	// openAtReturn: what of the server's listener / PacketConn was still open at the moment the
@@ -133,6 +134,10 @@ type run struct {
 }
 
 func (r *run) violate(format string, a ...any) {
+	if r.parent != nil {
+		r.parent.violate(format, a...)
+		return
+	}
 	r.mu.Lock()
 	r.viol = append(r.viol, fmt.Sprintf(format, a...))
 	r.mu.Unlock()
@@ -188,8 +193,18 @@ func replyToken(m *dns.Msg) string {
 	return ""
 }
 
+// restartBase is the index of the first client of the second run.
+const restartBase = 9
+
 // spec returns the handler behaviour for request (j,q).
 func (r *run) spec(j, q int) Req {
+	if j >= restartBase { // the second run's requests are held until release2 only
+		sp := Req{Mode: "fast", Until: "release2"}
+		if m := r.s.restartReqs(); j-restartBase < len(m) && q == 1 {
+			sp.Mode = m[j-restartBase]
+		}
+		return sp
+	}
 	if j >= 1 && j <= len(r.s.Clients) && q >= 1 && q <= len(r.s.Clients[j-1].Reqs) {
 		return r.s.Clients[j-1].Reqs[q-1]
 	}
@@ -224,7 +239,11 @@ func (r *run) handler(w dns.ResponseWriter, req *dns.Msg) {
 		}
 	}
 	wait := func() {
-		if r.log.WaitAny(2*watchdogFull, sp.Until, "release") < 0 {
+		rel := "release"
+		if j >= restartBase {
+			rel = "release2"
+		}
+		if r.log.WaitAny(2*watchdogFull, sp.Until, rel) < 0 {
 			r.log.Addf("handler.wait-abandoned(%d,%d)", j, q)
 		}
 	}
@@ -559,6 +578,7 @@ func (r *run) hangOpt(what string, rescue bool) error {
 	stuck := dnsGoroutines()
 	evs := r.log.String()
 	r.release()
+	r.log.Add("release2")
 	if len(stuck) == 0 {
 		fmt.Fprintf(os.Stderr, "c13: INFRASTRUCTURE: %s did not finish within %v but no goroutine is inside miekg/dns\n%s\n", what, wd, evs)
 		os.Exit(2)
@@ -588,8 +608,41 @@ func (r *run) release() { r.log.Add("release") }
 
 // rescue closes every transport object so that goroutines stuck in reads can leave.
 func (r *run) rescue() {
+	if r.parent != nil {
+		r.parent.rescue()
+		return
+	}
 	r.release()
+	r.log.Add("release2")
 	r.log.Add("teardown")
+	r.closeAll()
+	if r.child != nil {
+		r.child.closeAll()
+	}
+	deadline := time.Now().Add(3 * time.Second)
+	for time.Now().Before(deadline) {
+		if len(dnsGoroutines()) == 0 {
+			return
+		}
+		time.Sleep(10 * time.Millisecond)
+	}
+	wedged.Store(true)
+}
+
+// teardown ends the clients of this run: no new connections, the existing ones are closed.
+func (r *run) teardown() {
+	r.log.Add("teardown")
+	r.mu.Lock()
+	r.torn = true
+	conns := append([]net.Conn(nil), r.cliConns...)
+	r.mu.Unlock()
+	for _, c := range conns {
+		c.Close()
+	}
+}
+
+// closeAll closes the client connections and the server side transport objects of this run.
+func (r *run) closeAll() {
 	r.mu.Lock()
 	r.torn = true
 	conns := append([]net.Conn(nil), r.cliConns...)
@@ -615,14 +668,14 @@ func (r *run) rescue() {
 	if r.udp != nil {
 		r.udp.Close()
 	}
-	deadline := time.Now().Add(3 * time.Second)
-	for time.Now().Before(deadline) {
-		if len(dnsGoroutines()) == 0 {
-			return
-		}
-		time.Sleep(10 * time.Millisecond)
-	}
-	wedged.Store(true)
+}
+
+// runScenario executes one scenario and returns its evidence classes and the oracle's verdict.
+func runScenario(s Scenario) ([]string, error) {
+	r := &run{s: s, nonce: newNonce(), log: memnet.NewLog(), addr2idx: map[string]string{}, results: map[string]error{}, resultSet: map[string]bool{}, phase: 1}
+	r.log.SetPlan(s.Waits)
+	err := r.execute()
+	return r.classes(), err
 }
 
 func checkScenario(s Scenario) error {
@@ -633,10 +686,7 @@ func checkScenario(s Scenario) error {
 		pbt.Note(key, false, "skipped-after-wedge")
 		return nil
 	}
-	r := &run{s: s, nonce: newNonce(), log: memnet.NewLog(), addr2idx: map[string]string{}, results: map[string]error{}, resultSet: map[string]bool{}, phase: 1}
-	r.log.SetPlan(s.Waits)
-	err := r.execute()
-	classes := r.classes()
+	classes, err := runScenario(s)
 	nontrivial := false
 	for _, c := range classes {
 		if c == "sd-while-handler-running" || c == "sd-while-conn-unread" || strings.HasPrefix(c, "misuse=") {
@@ -706,9 +756,14 @@ func (r *run) execute() (err error) {
 	// --- start
 	serveDone := make(chan struct{})
 	go func() {
+		defer close(serveDone)
+		defer func() { // the serve loop's deferred clean-up runs on this goroutine
+			if p := recover(); p != nil {
+				r.log.Add("serve.panic(" + clip(fmt.Sprint(p), 80) + ")")
+			}
+		}()
 		e := r.srv.ActivateAndServe()
 		r.log.Point("serve.return(" + errTag(e) + ")")
-		close(serveDone)
 	}()
 	if r.log.WaitAny(watchdog(), "srv.started", "serve.return(*)") < 0 {
 		return r.hang("ActivateAndServe (never reported started)")
@@ -862,6 +917,22 @@ func (r *run) execute() (err error) {
 	case <-sdDone:
 	case <-time.After(time.Duration(s.HoldMs) * time.Millisecond):
 	}
+	// --- misuse: restart during drain - the context of this Shutdown expires on its own; when it has
+	// given up, the same Server value is started again while the handlers of run 1 are still held
+	if s.drain() {
+		select {
+		case <-sdDone:
+		case <-time.After(watchdog()):
+			return r.hang("ShutdownContext whose context has expired")
+		}
+		r.mu.Lock()
+		e := r.sdErr
+		r.mu.Unlock()
+		if e != nil && !isNotStarted(e) {
+			return r.secondRun(true, serveDone, clientsDone)
+		}
+		// Shutdown completed before it looked at its context: the restart follows after run 1 as usual
+	}
 	r.release()
 	wd := time.After(watchdog())
 	select {
@@ -888,14 +959,7 @@ func (r *run) execute() (err error) {
 	if e := r.awaitReplies(); e != nil {
 		return e
 	}
-	r.log.Add("teardown")
-	r.mu.Lock()
-	r.torn = true
-	conns := append([]net.Conn(nil), r.cliConns...)
-	r.mu.Unlock()
-	for _, c := range conns {
-		c.Close()
-	}
+	r.teardown()
 	if !within(watchdog(), func() { r.wg.Wait(); <-clientsDone }) {
 		return r.hang("harness clients/controllers")
 	}
@@ -907,9 +971,9 @@ func (r *run) execute() (err error) {
 		return e
 	}
 
-	// --- misuse: restart the same Server value after a complete shutdown
+	// --- misuse: restart the same Server value after run 1 is over
 	if _, ok := r.hasMisuse("restartAfterShutdown"); ok {
-		return r.restart()
+		return r.secondRun(false, nil, nil)
 	}
 	return nil
 }
@@ -1020,8 +1084,14 @@ func (r *run) invariants() error {
 		return r.fail("I4: Shutdown returned %v although the context was never cancelled", effErr)
 	}
 	// I4 serve result
+	if i := idx("serve.panic(*)"); i >= 0 {
+		return r.fail("I4: the serve call did not return nil, it panicked: %s", names[i])
+	}
 	if idx("serve.return(nil)") < 0 {
-		return r.fail("I4: the serve call returned %v, want nil", names[idx("serve.return(*)")])
+		if i := idx("serve.return(*)"); i >= 0 {
+			return r.fail("I4: the serve call returned %v, want nil", names[i])
+		}
+		return r.fail("I4: the serve call has not returned")
 	}
 	// I5 second start
 	if set["secondStart"] && !isAlreadyStarted(res["secondStart"]) {
@@ -1311,88 +1381,338 @@ func (r *run) closedAndLeakFree() error {
 	}
 }
 
-// restart runs a second, simple life cycle on the same Server value: start, one exchange, Shutdown.
-func (r *run) restart() error {
-	r.log.Add("restart")
+// secondRun is the second life cycle on the same Server value (misuse restartAfterShutdown, see
+// Restart): fresh transport, start, one client per request, Shutdown while the handlers of this
+// run are held, release, and the invariants I1..I7 for THIS run: Shutdown 2 returns nil, and only
+// after every handler of run 2 has returned; their replies arrive; no handler of run 2 starts
+// after it; the serve call returns nil (a panic of the serve loop is caught here); nothing is left.
+//
+// drain = false: run 1 is completely over and has been checked (its Shutdown may have given up on
+// its context - then the handlers it left behind have been released and have returned).
+// drain = true: Shutdown 1 has just returned its context's error; handlers of run 1 may still be
+// held. They are released at Restart.Release1. Nothing is asserted about THEM (the statement waives
+// handlers that outlive an expired context), but run 1's serve call must still return nil, and
+// whatever run 1 does while it drains must not break any promise made to run 2.
+func (r *run) secondRun(drain bool, serve1Done, clients1Done <-chan struct{}) error {
+	rs := r.s.Restart
+	reqs := r.s.restartReqs()
+	if drain {
+		r.log.Add("restart(drain)")
+	} else {
+		r.log.Add("restart(complete)")
+	}
 	mark := r.log.Len()
-	r.mu.Lock()
-	r.cliConns = nil
-	r.sdErr = nil
-	r.torn = false
-	r.mu.Unlock()
-	if err := r.attach(); err != nil {
+	r2 := &run{s: r.s, nonce: r.nonce, log: r.log, srv: r.srv, addr2idx: map[string]string{}, phase: 2, parent: r}
+	r.child = r2
+	if err := r2.attach(); err != nil {
 		fmt.Fprintln(os.Stderr, "c13: INFRASTRUCTURE:", err)
 		os.Exit(2)
 	}
-	serveDone := make(chan struct{})
-	var serveErr error
-	go func() {
-		serveErr = r.srv.ActivateAndServe()
-		r.log.Add("serve2.return(" + errTag(serveErr) + ")")
-		close(serveDone)
-	}()
-	if !r.log.WaitCount("srv.started", 2, watchdog()) {
-		select {
-		case <-serveDone:
-			return r.fail("restart: ActivateAndServe after a complete Shutdown returned %v instead of serving", serveErr)
-		default:
+	release1 := func() {
+		if drain {
+			r.release()
 		}
-		return r.hang("ActivateAndServe after a complete shutdown (never reported started)")
 	}
-	const j = 9
-	conn, err := r.dial(j)
-	if err != nil {
-		return r.fail("restart: cannot connect to the restarted server: %v", err)
+	serve2Done := make(chan struct{})
+	go func() {
+		defer close(serve2Done)
+		defer func() {
+			if p := recover(); p != nil {
+				r.log.Add("serve2.panic(" + clip(fmt.Sprint(p), 80) + ")")
+			}
+		}()
+		e := r.srv.ActivateAndServe()
+		r.log.Point("serve2.return(" + errTag(e) + ")")
+	}()
+	started2 := make(chan bool, 1)
+	go func() { started2 <- r.log.WaitCount("srv.started", 2, watchdog()) }()
+	select {
+	case ok := <-started2:
+		if !ok {
+			return r.hang("ActivateAndServe of the second run (never reported started)")
+		}
+	case <-serve2Done:
+		if !r.log.WaitCount("srv.started", 2, 0) {
+			release1()
+			r.rescue()
+			return r.fail("restart: ActivateAndServe on the same Server value with a fresh transport did not serve: %s", r.lastOf("serve2.*"))
+		}
 	}
-	co := &dns.Conn{Conn: conn}
-	m := new(dns.Msg)
-	m.SetQuestion(r.qname(j, 1), dns.TypeTXT)
-	m.Id = j*16 + 1
-	var rep *dns.Msg
-	if !within(watchdog(), func() {
-		if err = co.WriteMsg(m); err == nil {
-			rep, err = co.ReadMsg()
-			for i := 0; err == nil && r.s.Transport == "realUDP" && !strings.Contains(replyToken(rep), r.nonce) && i < 8; i++ {
-				rep, err = co.ReadMsg() // a datagram of another process (see newNonce)
+	if rs.Release1 == "started2" {
+		release1()
+		r.paceRun1(drain)
+	}
+
+	// --- clients of run 2
+	for i := range reqs {
+		j := restartBase + i
+		r2.wg.Add(1)
+		go r2.client(j, Client{Reqs: []Req{{Mode: reqs[i], Until: "release2"}}, Close: "end"})
+	}
+	const reach = 2 * time.Second // a request that has not got that far by then is not waited for
+	gone := func(j int) []string {
+		return []string{fmt.Sprintf("client(%d).dialerr", j), fmt.Sprintf("client(%d).senderr(1)", j), fmt.Sprintf("client(%d).recverr(1)", j)}
+	}
+	switch rs.At {
+	case "started":
+	case "sent":
+		for i := range reqs {
+			j := restartBase + i
+			r.log.WaitAny(reach, append(gone(j), fmt.Sprintf("client(%d).sent(1)", j))...)
+		}
+	default: // entered
+		for i, m := range reqs {
+			j := restartBase + i
+			want := fmt.Sprintf("handler.enter(%d,1)", j)
+			if m == "fast" {
+				want = fmt.Sprintf("client(%d).recv(1)", j)
+			}
+			if r.log.WaitAny(reach, append(gone(j), want)...) < 0 {
+				r.log.Add("trigger2-fallback")
 			}
 		}
-	}) {
-		return r.hang("an exchange with the restarted server")
 	}
-	if err != nil || rep.Id != m.Id || replyToken(rep) != r.token(j, 1) {
-		return r.fail("restart: exchange with the restarted server failed: %v %v", err, rep)
+	if rs.Release1 == "entered2" {
+		release1()
+		r.paceRun1(drain)
 	}
-	var sdErr error
-	if !within(watchdog(), func() { sdErr = r.srv.Shutdown() }) {
-		return r.hang("Shutdown of the restarted server")
+
+	// --- Shutdown of run 2
+	var sd2Err error
+	var open2 string
+	sd2Done := make(chan struct{})
+	go func() {
+		defer close(sd2Done)
+		r.log.Point("shutdown2.call")
+		var e error
+		if rs.CtxAPI {
+			e = r.srv.ShutdownContext(context.Background())
+		} else {
+			e = r.srv.Shutdown()
+		}
+		if !isNotStarted(e) {
+			open2 = r2.openTransport()
+		}
+		sd2Err = e
+		r.log.Point("shutdown2.return(" + errTag(e) + ")")
+	}()
+	// Shutdown 2 gets HoldMs to return although handlers of run 2 are held - it must not. (A longer
+	// hold only gives a faulty library more time to show itself; no verdict depends on it.)
+	hold := func() {
+		select {
+		case <-sd2Done:
+		case <-time.After(time.Duration(rs.HoldMs) * time.Millisecond):
+		}
 	}
-	r.log.Add("shutdown2.return(" + errTag(sdErr) + ")")
-	if sdErr != nil {
-		return r.fail("restart: Shutdown of the restarted server returned %v", sdErr)
+	hold()
+	if rs.Release1 == "held2" {
+		release1() // run 1 finishes draining while Shutdown 2 waits for run 2
+		hold()
+	}
+	r.log.Add("release2")
+	wd := time.After(watchdog())
+	select {
+	case <-sd2Done:
+	case <-wd:
+		return r.hang("Shutdown of the second run (all handlers released)")
 	}
 	select {
-	case <-serveDone:
-	case <-time.After(watchdog()):
-		return r.hang("ActivateAndServe of the restarted server after Shutdown")
+	case <-serve2Done:
+	case <-wd:
+		return r.hang("ActivateAndServe of the second run after Shutdown returned")
 	}
-	if serveErr != nil {
-		return r.fail("restart: serve call of the restarted server returned %v, want nil", serveErr)
-	}
-	conn.Close()
-	names := r.log.Names()[mark:]
-	ent, ex := 0, 0
-	for _, n := range names {
-		if strings.HasPrefix(n, "handler.enter(") {
-			ent++
+
+	// --- run 1 finishes (drain)
+	if drain {
+		release1()
+		if !r.waitHandlersExited(watchdog()) {
+			return r.hang("a released handler")
 		}
-		if strings.HasPrefix(n, "handler.exit(") {
-			ex++
+		// both Shutdown calls have returned and every handler too: a connection of run 1 that was
+		// inside a handler when the server was started again must now be let go by the server itself
+		if e := r.staleConns(mark); e != nil {
+			return e
+		}
+		r.teardown()
+		select {
+		case <-serve1Done:
+		case <-time.After(watchdog()):
+			return r.hang("the serve call of run 1 (its handlers are released, its clients gone)")
 		}
 	}
-	if ent != 1 || ex != 1 {
-		return r.fail("restart: %d handler entries, %d exits, want 1/1", ent, ex)
+	if !r.waitHandlersExited(watchdog()) {
+		return r.hang("a released handler")
 	}
-	return r.closedAndLeakFree()
+
+	// --- I2 of run 2: wait for the replies that were written, then tear the clients down
+	names := r.log.Names()
+	for _, n := range names[mark:] {
+		var j, q int
+		if scan(n, "handler.written(%d,%d)", &j, &q) && j >= restartBase {
+			if r.log.WaitAny(10*time.Second, fmt.Sprintf("client(%d).recv(%d)", j, q), fmt.Sprintf("client(%d).recverr(%d)", j, q)) != 0 {
+				r.rescue()
+				return r.fail("I2 (second run): handler (%d,%d) wrote its reply without error but client %d did not receive it", j, q, j)
+			}
+		}
+	}
+	r2.teardown()
+	if !within(watchdog(), func() {
+		r2.wg.Wait()
+		if drain {
+			r.wg.Wait()
+			<-clients1Done
+		}
+	}) {
+		return r.hang("harness clients/controllers")
+	}
+
+	// --- invariants
+	if drain {
+		if e := r.invariants(); e != nil { // run 1: its handlers are waived (Shutdown 1 gave up), its serve call is not
+			return e
+		}
+	} else {
+		r.mu.Lock()
+		viol := append([]string(nil), r.viol...)
+		r.mu.Unlock()
+		if len(viol) > 0 {
+			return r.fail("%s", strings.Join(viol, "; "))
+		}
+	}
+	names = r.log.Names()
+	at := func(pat string) int {
+		for i := mark; i < len(names); i++ {
+			if memnet.Match(pat, names[i]) {
+				return i
+			}
+		}
+		return -1
+	}
+	if i := at("serve2.panic(*)"); i >= 0 {
+		return r.fail("I4 (second run): the serve call did not return nil, it panicked: %s", names[i])
+	}
+	ret2 := at("shutdown2.return(*)")
+	if sd2Err != nil {
+		return r.fail("I4 (second run): Shutdown of the restarted server returned %v, want nil", sd2Err)
+	}
+	if at("serve2.return(nil)") < 0 {
+		return r.fail("I4 (second run): the serve call of the restarted server returned %s, want nil", r.lastOf("serve2.*"))
+	}
+	for i := mark; i < len(names); i++ {
+		var j, q int
+		if !scan(names[i], "handler.enter(%d,%d)", &j, &q) || j < restartBase {
+			continue
+		}
+		if i > ret2 {
+			return r.fail("I3 (second run): handler (%d,%d) was started after Shutdown had returned", j, q)
+		}
+		if x := at(fmt.Sprintf("handler.exit(%d,%d)", j, q)); x < 0 || x > ret2 {
+			return r.fail("I1 (second run of the same Server value): Shutdown returned nil while handler (%d,%d) was still running", j, q)
+		}
+		if at(fmt.Sprintf("handler.writeerr(%d,%d)", j, q)) >= 0 {
+			return r.fail("I2 (second run): the reply of handler (%d,%d) could not be written although its client was still there", j, q)
+		}
+	}
+	if open2 != "" {
+		return r.fail("I6 (second run): when Shutdown returned, %s of the server was still open", open2)
+	}
+	if drain {
+		if e := r.closedAndLeakFree(); e != nil {
+			return e
+		}
+	}
+	return r2.closedAndLeakFree()
+}
+
+// staleConns (drain, stream transports): every connection of run 1 whose handler was still running
+// when the same Server value was started again (log position mark) must be closed by the server once
+// that handler has returned and the second run has been shut down - without its client closing
+// first. A connection that the server goes on reading belongs to no run any more: no Shutdown call
+// will ever wake its reader, and run 1's serve call stays blocked on it (I6 / I4).
+func (r *run) staleConns(mark int) error {
+	if r.lis == nil && r.spy == nil {
+		return nil
+	}
+	names := r.log.Names()
+	held := map[int]bool{}
+	for i, n := range names {
+		var j, q int
+		if i < mark && scan(n, "handler.enter(%d,%d)", &j, &q) && j < restartBase {
+			held[j] = true
+		}
+		if i < mark && scan(n, "handler.exit(%d,%d)", &j, &q) {
+			delete(held, j)
+		}
+	}
+	closed := func(name string) (found, isClosed bool) {
+		if r.lis != nil {
+			for _, c := range r.lis.Accepted() {
+				if c.Name() == name {
+					return true, c.Closed()
+				}
+			}
+		}
+		if r.spy != nil {
+			for _, c := range r.spy.Accepted() {
+				if c.Name() == name {
+					return true, c.Closed()
+				}
+			}
+		}
+		return false, false
+	}
+	for j := 1; j <= len(r.s.Clients); j++ {
+		if !held[j] {
+			continue
+		}
+		name := fmt.Sprintf("conn(%d)", j)
+		deadline := time.Now().Add(leakPoll)
+		for {
+			found, cl := closed(name)
+			if !found || cl {
+				break
+			}
+			if time.Now().After(deadline) {
+				g := dnsGoroutines()
+				r.rescue()
+				return r.fail("I6/I4: %s was accepted by the first run and was inside a handler when the same Server value was started again; its handler has returned and both Shutdown calls have returned, but 5s later the server still holds the connection open (%d goroutine(s) inside miekg/dns) - it belongs to no run, no Shutdown will unblock its reader and the first serve call cannot return:\n%s", name, len(g), clip(strings.Join(g, "\n\n"), 3000))
+			}
+			time.Sleep(2 * time.Millisecond)
+		}
+	}
+	return nil
+}
+
+// paceRun1 gives the released handlers of run 1 the time to return before the controller goes on,
+// so that whatever run 1 does when it has drained happens while run 2 is being served (pacing only:
+// nothing is decided here, and after 2s the controller goes on regardless).
+func (r *run) paceRun1(drain bool) {
+	if !drain {
+		return
+	}
+	for deadline := time.Now().Add(2 * time.Second); time.Now().Before(deadline); time.Sleep(300 * time.Microsecond) {
+		open := 0
+		for _, n := range r.log.Names() {
+			var j, q int
+			if scan(n, "handler.enter(%d,%d)", &j, &q) && j < restartBase {
+				open++
+			} else if scan(n, "handler.exit(%d,%d)", &j, &q) && j < restartBase {
+				open--
+			}
+		}
+		if open <= 0 {
+			return
+		}
+	}
+}
+
+// lastOf returns the last logged event matching pat ("nothing" when there is none).
+func (r *run) lastOf(pat string) string {
+	names := r.log.Names()
+	if i := r.log.LastIndex(pat); i >= 0 {
+		return names[i]
+	}
+	return "nothing"
 }
 
 // classes derives the evidence classes from the scenario and the log.
@@ -1504,6 +1824,56 @@ func (r *run) classes() []string {
 	}
 	if gaveUp {
 		cl = append(cl, "shutdown-gave-up-on-ctx")
+	}
+	// the second run
+	at2, call2 := -1, -1
+	for i, n := range names {
+		if strings.HasPrefix(n, "restart(") && at2 < 0 {
+			at2 = i
+			cl = append(cl, n)
+		}
+		if n == "shutdown2.call" && call2 < 0 {
+			call2 = i
+		}
+	}
+	if at2 >= 0 {
+		if gaveUp {
+			cl = append(cl, "restart-after-shutdown-gave-up")
+		}
+		run1, run2 := map[string]bool{}, map[string]bool{}
+		upto := len(names)
+		if call2 >= 0 {
+			upto = call2
+		}
+		for i, n := range names[:upto] {
+			var j, q int
+			switch {
+			case scan(n, "handler.enter(%d,%d)", &j, &q):
+				if j >= restartBase {
+					run2[fmt.Sprint(j, q)] = true
+				} else if i < at2 {
+					run1[fmt.Sprint(j, q)] = true
+				}
+			case scan(n, "handler.exit(%d,%d)", &j, &q):
+				if j >= restartBase {
+					delete(run2, fmt.Sprint(j, q))
+				} else if i < at2 {
+					delete(run1, fmt.Sprint(j, q))
+				}
+			}
+		}
+		if len(run1) > 0 {
+			cl = append(cl, "restart-while-handler-of-run1-running")
+		}
+		if call2 >= 0 && len(run2) > 0 {
+			cl = append(cl, "restart:sd2-while-handler-running")
+		}
+		if names[at2] == "restart(drain)" {
+			cl = append(cl, "restart-release1="+s.Restart.Release1)
+		}
+		if call2 >= 0 {
+			cl = append(cl, "restart-at="+s.Restart.At)
+		}
 	}
 	return cl
 }
